@@ -629,6 +629,10 @@ func Run(ctx *common.Ctx) int {
 			for sh := 0; sh < shards; sh++ {
 				tasks = append(tasks, e1.Task{Check: "C13", Name: fmt.Sprintf("c13/sched/F%d/n%d/b%d", F, nW, bound), Params: p, Bound: bound, W: 4, Shard: sh, NShards: shards, CostAll: true})
 			}
+			if F >= 2 && nW >= 2 && nW <= 3 {
+				// the same under the delay-bounded default policy (a preempted thread stays behind until all others block)
+				tasks = append(tasks, e1.Task{Check: "C13", Name: fmt.Sprintf("c13/sched/F%d/n%d/b1/p3", F, nW), Params: p, Bound: 1, Policy: 3, W: 4, NShards: 1, CostAll: true})
+			}
 		}
 	}
 	ctx.Printf("C13: %d tasks; discovered %v (instrumented constructs: %v)\n", len(tasks), ts, info.Counts)
